@@ -26,7 +26,7 @@ _BD = "AutoCarver/discretizers/utils/base_discretizers.py"
 _BC = "AutoCarver/carvers/base_carver.py"
 ANCHORS = [(_BD, "BaseDiscretizer.summary"), (_BD, "BaseDiscretizer.history"), (_BC, "BaseCarver._historize_viability_test"), (_BC, "BaseCarver._carve_feature")]
 DECIDING_ANCHORS = [(_BD, "BaseDiscretizer.summary"), (_BC, "BaseCarver._historize_viability_test")]
-N = {"quick": 400, "thorough": 8000}
+N = {"quick": 600, "thorough": 8000}
 REQUIRED_COUNTERS = {"quick": {"summaries_checked": 250, "summary_single_feature_calls": 500, "histories_checked": 150, "history_measures_recomputed": 3000,
                                "quant_features_with_nan_merged": 15},
                      "thorough": {"summaries_checked": 5000, "summary_single_feature_calls": 10000, "histories_checked": 3000, "history_measures_recomputed": 60000,
